@@ -360,6 +360,21 @@ impl VersionManager {
         out
     }
 
+    /// (verification hook) the row-sets `(table_id, rowset_id)` of the latest snapshot, sorted:
+    /// what a transaction that pins its version right now will read.
+    #[cfg(feature = "verif")]
+    pub fn verif_latest_rowsets(&self) -> Vec<(u32, u32)> {
+        let inner = self.inner.lock();
+        let mut rowsets = vec![];
+        if let Some(snapshot) = inner.status.get(&inner.epoch) {
+            for (table_id, set) in &snapshot.rowsets {
+                rowsets.extend(set.iter().map(|r| (*table_id, *r)));
+            }
+        }
+        rowsets.sort_unstable();
+        rowsets
+    }
+
     pub async fn find_vacuum(self: &Arc<Self>) -> StorageResult<Vec<(u32, u32)>> {
         let mut inner = self.inner.lock();
         let min_pinned_epoch = inner.ref_cnt.keys().min().cloned();
